@@ -711,6 +711,7 @@ func TestC13(t *testing.T) {
 	c13HandlerEndOfStream(t, c)
 	c13TruncatedAfterHonest(t, c)
 	c13LateDelivery(t, c)
+	c13ClientEndOfStream(t, c)
 	cases := c13Scenarios(thorough)
 	for i, k := range cases {
 		if !ev.Mine(i) {
